@@ -1,12 +1,14 @@
 from props import cfg
 
 CFG = cfg('C06', refine=['Refine_keyprotect'], extract='Ex_C06', driver='c06',
-          rule='histories over {protect, enter good/bad, exit, exception in scope, sign, decrypt, export, re-import} (scripted + random op lists, '
-               'nested scopes, re-protect inside a scope) x {rsa2048+RSA subkey, dsa2048, p256+ECDH, ed25519+ECDH+EdDSA subkeys} x 9 ciphers x 7 S2K '
+          rule='histories over {protect with an accepted or a refused cipher (Plaintext / IDEA / Twofish256: key must stay as it was), enter good/bad, '
+               'exit, exception in scope, sign, decrypt, export, re-import, add_subkey (inside and outside an unlock scope: the attached subkey '
+               'keeps its secret)} (scripted + random op lists, nested scopes, re-protect inside a scope) x {rsa2048+RSA subkey, dsa2048, p256+ECDH, ed25519+ECDH+EdDSA subkeys} x 9 ciphers x 7 S2K '
                'hashes x passphrases (ASCII, UTF-8, 1000+ chars, raw bytes) x S2K counts (incl. PGPy\'s 255); every protect: model predicts the '
                'exported secret part octet for octet from the observed (IV, salt) draws, the model reads bytes(key) back as an independent RFC 4880 '
                '5.5.3 reader and must recover the original integers; foreign forms WRITTEN by the model (usage 254/255 x simple/salted/iterated, '
-               'GNU dummy / smartcard stub, mixed protected/unprotected) must be read by PGPy; octet search of every secret MPI >= 16 octets in '
+               'on every key incl. DSA; GNU dummy / smartcard stub incl. the empty serial; protected primary with unprotected subkeys, which must '
+               'unlock, work and keep the subkey secrets over every scope exit) must be read by PGPy; octet search of every secret MPI >= 16 octets in '
                'protected exports; object-graph walk for secret integers after every scope exit. distinct = distinct (suite, key, configuration / op list)',
           trusted=['Spec/Rfc4880_keyprotect.v (RFC 4880 5.5.3 / 3.7.1 / 3.2 transcription)',
                    'primitive oracle: cryptography (CFB of every cipher) and hashlib (SHA-1, S2K hashes) called directly by the harness; '
@@ -14,15 +16,19 @@ CFG = cfg('C06', refine=['Refine_keyprotect'], extract='Ex_C06', driver='c06',
           assumptions=['cfb_dec k iv (cfb_enc k iv x) = x and length (sha1 x) = 20 (premises of the round-trip theorems, Section variables)',
                        'public MPIs of a key are non-zero (PrivKeyV4.unlocked tests every MPI; the model tests the private ones)',
                        'CPython heap residue of freed integers / bytearrays is NOT modelled (partial): reachable object graph is checked instead',
-                       'source text of PrivKey.encrypt_keyblob / decrypt_keyblob / clear, PGPKey.unlock / protect, PrivKeyV4.unlocked, '
-                       'String2Key.parse is pinned by digest (nothing here goes through py2coq)',
-                       'usage-255 foreign forms restricted to RSA / ECC (DSA / ElGamal usage 255 is the C08-class encbytes aliasing finding)'])
+                       'source text of PrivKey.encrypt_keyblob / decrypt_keyblob / clear, PGPKey.unlock / protect / add_subkey, PrivKeyV4.unlocked, '
+                       'String2Key.parse / __bytearray__ / _experimental_parse / _experimental_bytearray is pinned by digest (encrypt_keyblob / '
+                       'decrypt_keyblob are also translated by py2coq: Refine_keyprotect)',
+                       'ElGamal secret keys cannot be generated here (same parse code as DSA, whose usage-255 form is exercised)'])
 
 TEXT = ('Rocq theorems (Props/C06.v, closed under the global context; primitives universally quantified): the secret part PGPy writes equals the '
         'RFC 4880 5.5.3 transcription (also every foreign form the model writes); unprotect(protect) = the secret integers for usage 254 and 255 and '
         'every S2K type; the SHA-1 / 16-bit-checksum gate is the only path to acceptance; over ARBITRARY op lists: no open unlock scope => every '
         'protected packet is Locked with zero secrets (invariant by induction), every scope exit (normal, exception, failed enter half-way through '
-        'the subkeys) clears, a locked key refuses sign/decrypt, a wrong passphrase leaves the key as it was, the right one restores the integers, '
+        'the subkeys) clears the PROTECTED key material and only that (a subkey attached inside the scope keeps its secret; key material that is '
+        'not protected is untouched by any history without protect), a refused protect leaves state and all later observations unchanged, '
+        'a locked key refuses sign/decrypt, a wrong passphrase leaves the key as it was, the right one restores the integers (also under '
+        'unprotected subkeys), GNU stubs (empty serial included) are read back as written, '
         'and every protected export is the value of a symbolic term with no secret outside the CFB plaintext. Tie: extracted model vs PGPy on '
         'histories; the model as independent reader of PGPy-protected keys and as writer of foreign forms PGPy must read. PARTIAL: CPython heap '
         'residue of freed secret integers is outside the model (object-graph reachability is checked instead).',
